@@ -830,3 +830,23 @@ package mqtt
 //@ func mqtt.(*Client).SubscribeLimitAtLeastOnce -> err
 //@ requires writable(c) && c.perPacketID != nil
 //@ at[C09] call subscribeLevel#1: assert levelMax == 1
+
+// ReadBackoff: no wait after success or with a big message pending, for ever after Close, and otherwise a
+// fresh channel armed with a delay of one second (Persistence trouble) or within the configured bounds.
+//@ func mqtt.IsConnectionRefused -> r
+//@ pure
+//@ func mqtt.(*Client).ReadBackoff -> ch
+//@ requires c.ReconnectWaitMin >= 0 && c.ReconnectWaitMax >= c.ReconnectWaitMin
+//@ modifies c.reconnectWait
+//@ at[C10] call AfterFunc#1: assert d == 1000000000 || (d >= c.ReconnectWaitMin && d <= c.ReconnectWaitMax)
+//@ ensures[C10] err == nil || c.bigMessage != nil ==> ch == closed
+//@ ensures[C10,C12] err != nil && c.bigMessage == nil && Is(err, ErrClosed) ==> ch == nil
+//@ ensures[C10] err != nil && c.bigMessage == nil && !Is(err, ErrClosed) ==> ch != nil && fresh(ch)
+
+// the classifiers, over the sentinel lists of the package
+//@ func mqtt.IsDeny -> r
+//@ pure
+//@ ensures[C14] r == (err != nil && denied(err))
+//@ func mqtt.IsEnd -> r
+//@ pure
+//@ ensures[C14,C12] r == (err != nil && (Is(err, ErrClosed) || Is(err, ErrCanceled) || Is(err, ErrAbandoned)))
